@@ -176,7 +176,16 @@ func (histEngine) execute(sc *Scenario) *Outcome {
 			out.stat("fired_"+k, v)
 		}
 		c := &stepCtx{sc: sc, hc: hc, out: out, i: i, op: op, res: &res, before: before, after: after, target: targetName(op, w), clock: spec.Base}
-		c.faulted = res.Killed || res.Fired["write_error"] > 0 || res.Fired["read_error"] > 0 || res.Fired["torn_write"] > 0
+		// An injected kill or torn write ends the process: no claim for that step. An injected
+		// I/O *error* (failed write, read, open, rename, close, sync) may legitimately be handled
+		// (retry, fall-back to another write strategy): if klog nevertheless reports success the
+		// step is judged in full like any other; if it reports failure no claim is made about
+		// the bytes (os.WriteFile truncates before it fails).
+		errFault := res.Fired["write_error"] > 0 || res.Fired["read_error"] > 0 || res.Fired["meta_error"] > 0
+		c.faulted = res.Killed || res.Fired["torn_write"] > 0 || (errFault && res.Failed)
+		if errFault && !res.Failed {
+			out.stat("io_error_survived_with_success", 1)
+		}
 		c.judge()
 		outcome := "ok"
 		if res.Failed {
@@ -299,12 +308,6 @@ func (c *stepCtx) judge() {
 		out.stat("faulted_steps", 1)
 		if res.Fired["torn_write"] > 0 {
 			out.stat("torn_states_reached", 1)
-		}
-		if res.Fired["write_error"] > 0 && !res.Failed && !res.Killed {
-			c.report("C05", "write-error-ignored", cmdSite, "the write failed (injected ENOSPC) but klog reported success")
-		}
-		if res.Fired["read_error"] > 0 && !res.Failed && !res.Killed {
-			c.report("C05", "read-error-ignored", cmdSite, "reading failed (injected EIO) but klog reported success")
 		}
 		if res.Fired["kill"] > 0 && res.Fired["torn_write"] == 0 && res.Fired["write_error"] == 0 && prevValid && hasTarget {
 			// killed between two seam events: every write that happened was complete
